@@ -315,13 +315,15 @@ def cases(draw, plugin=False):
                               {"desc": draw(st.sampled_from(["a0", "c25", "u"])), "kind": "IsUnique", "type": "IsUnique", "rule": ", ".join(keys),
                                "keys": keys})
     for _ in range(draw(st.sampled_from([1, 1, 2, 2, 3]))):
-        api = draw(st.sampled_from(["rows", "reader", "writer"]))
+        api = draw(st.sampled_from(["rows", "reader", "writer", "rows", "reader", "writer", "validate"]))
         n_rows = draw(st.integers(3 if plugin else 0, 6))
         table = [_draw_row(draw, case, api, index < case["header"]) for index in range(n_rows)]
         if fmt == "fixed":
             table = _canonical_fixed(table, n_fields)
         run = {"api": api, "mode": draw(st.sampled_from(["raise", "yield", "continue"])), "limit": None,
-               "second_close": api != "rows" and draw(st.booleans()), "table": table}
+               "second_close": api not in ("rows", "validate") and draw(st.booleans()), "table": table}
+        if api == "validate":
+            run["mode"] = "raise"  # cutplace.validate(): the first rejection ends it
         if not plugin and draw(st.integers(0, 3)) == 0:
             # the CID named by the path of its file instead of handed over as an object (as in the README)
             run["cid_via"] = "path"
@@ -616,6 +618,11 @@ def execute_runs(cutplace, cid, runs, mark, cid_path=None):
                             outcome["rejected"] += 1
                 except data_error:
                     outcome["rejected"] += 1
+            elif run["api"] == "validate":
+                try:
+                    cutplace.validate(cid, io.StringIO(run["text"], newline=""), validate_until=run["limit"])
+                except data_error as error:
+                    outcome["close_error"] = type(error).__name__
             else:
                 try:
                     for item in cutplace.rows(cid, io.StringIO(run["text"], newline=""), on_error=run["mode"],
